@@ -100,7 +100,9 @@ func genC08(seed uint64, tier string) *plan.Plan {
 				nT++
 			}
 		default:
-			if r.IntN(4) == 0 {
+			// moving the counter by hook in mid-session is only meaningful when no background send
+			// can be in flight (the hook is not part of the library's synchronisation): tcp only
+			if !udp && r.IntN(4) == 0 {
 				pl.Ops = append(pl.Ops, plan.Op{K: "setseq", A: int64(uint32(0) - uint32(r.IntN(100)))})
 			}
 		}
